@@ -197,6 +197,26 @@ def unitVsConstSymbolicOk (k : String) : Bool :=
 def unitAndConstantAgreeSymbolic (excl : List String) : Bool :=
   unitCells.all fun p => excl.contains p.1 || unitVsConstSymbolicOk p.1
 
+/-! ### the unit strings of the constants table against the unit table -/
+
+/-- (SI scale, dimension) of a product of integer powers of unit symbols, resolved in the
+    regenerated unit table (prefixes included) — `Unit(unit_name)` for the strings of the table -/
+def unitDenoteQ : List (String × Rat) → Option (Rat × Dim)
+  | [] => some (1, Dim.one)
+  | (s, q) :: rest =>
+    match resolve (defaultPrefixes Rat) (defaultLut Rat) s, unitDenoteQ rest with
+    | some ent, some (v, d) =>
+      if q.den = 1 && ent.offset == 0 then some (zpowK ent.scale q.num * v, ent.dim.pow q * d) else none
+    | _, _ => none
+
+/-- the SI scale and dimension recorded for a row's unit string are what the unit table gives -/
+def constUnitOk (c : ConstRow) : Bool :=
+  match unitDenoteQ c.unitFactors with
+  | some (v, d) => d == c.spec.dim && within (ratOfBits c.unitScale) v guiseTol
+  | none => false
+
+def constUnitsOk : Bool := constTable.all constUnitOk
+
 /-! ### values against the published ones -/
 
 def valueOk (c : ConstRow) : Bool :=
